@@ -295,6 +295,7 @@ PROPS = {
         "sources": KIT + ["mon_C12.c"],
         "phases": [{"name": "main", "config": "asan"},
                    {"name": "ndebug", "config": "asan-ndebug"},
+                   {"name": "fuzz", "config": "fuzz"},
                    {"name": "memcheck", "config": "memcheck", "tiers": ["thorough"], "workers": 16,
                     "wrap": ["valgrind", "-q", "--error-exitcode=97", "--track-origins=no", "--malloc-fill=0xAB"]}],
         "level": "exploration",
